@@ -116,6 +116,30 @@ decreases *arg.0, 0int
     MatchFnClosures(),
 ])
 
+# ---- MatchFunction: the wrapper the registry stores per class, and the dispatch on the leaf kind (top-level `.`, literal, \\d, \\p{..}, [..])
+mfun_new = Fn(F_MF, 'MatchFunction', 'new', ret='r', props=['C08', 'C02'], spec='''
+requires forall|c: char| call_requires(f, (c,)),
+ensures forall|g: CharSet| #[trigger] mf_models(f, g) ==> forall|c: char| #[trigger] r.match_fn.sem()(c) == g(c),
+''')
+mfun_call = Fn(F_MF, 'MatchFunction', 'call', ret='b', props=['C08', 'C02'], spec='''
+ensures b == self.match_fn.sem()(c)
+''', edits=[Replace('E3', 'self.match_fn.inner()(c)', 'self.match_fn.__call(c)', why='calling the boxed closure of the trusted MatchFn wrapper')])
+mfun_try_from = Fn(F_MF, 'TryFrom<&Ast> for MatchFunction', 'try_from', ret='r', rename='try_from__ast', impl_as='MatchFunction', qual_as='MatchFunction', props=['C08', 'C02', 'C15'],
+    spec='''
+ensures
+    // the class predicate of a registered leaf is the leaf's meaning (top-level `.`: everything except \\n and \\r; a literal: only itself)
+    r matches Ok(f) ==> is_class_leaf(*ast) && forall|ch: char| #[trigger] f.match_fn.sem()(ch) == leaf_sem(*ast, ch),
+    // any other node is rejected, never mis-compiled
+    !is_class_leaf(*ast) ==> r is Err,
+''', edits=[
+    Replace('E9', 'match_fn: l.as_ref().try_into()?', 'match_fn: MatchFn::try_from__literal(l.as_ref())?', why='trait dispatch resolved by argument type'),
+    Replace('E9', 'Ast::ClassUnicode(ref c) => Self { match_fn: c.as_ref().try_into()?, }', 'Ast::ClassUnicode(ref c) => Self { match_fn: MatchFn::try_from__unicode(c.as_ref())?, }', why='trait dispatch resolved by argument type'),
+    Replace('E9', 'Ast::ClassPerl(ref c) => Self { match_fn: c.as_ref().try_into()?, }', 'Ast::ClassPerl(ref c) => Self { match_fn: MatchFn::try_from__perl(c.as_ref())?, }', why='trait dispatch resolved by argument type'),
+    Replace('E9', 'Ast::ClassBracketed(ref c) => Self { match_fn: c.as_ref().try_into()?, }', 'Ast::ClassBracketed(ref c) => Self { match_fn: MatchFn::try_from__bracketed(c.as_ref())?, }', why='trait dispatch resolved by argument type'),
+    Replace('U3', 'return Err(unsupported!(format!("{:#?}", ast)))', 'return Err(verif_unsupported())', why='TRUSTED: construction of the error value'),
+    MatchFnClosures('Self :: new'),
+])
+
 UNIT = dict(
     name='u_class',
     externs=['regex_syntax'],
@@ -125,12 +149,19 @@ UNIT = dict(
 use vstd::prelude::*;
 use vstd::std_specs::iter::IteratorSpec;
 use regex_syntax::ast::{
+    Ast, Assertion, Flag, FlagsItemKind, FlagsItem, Flags, SetFlags, RepetitionRange, RepetitionKind, RepetitionOp, Repetition, CaptureName, GroupKind, Group, Alternation, Concat,
     ClassBracketed, ClassSet, ClassSetBinaryOp, ClassSetBinaryOpKind, ClassSetItem, ClassSetRange,
     ClassSetUnion, Literal, LiteralKind, Span, Position, ClassAscii, ClassUnicode, ClassPerl, HexLiteralKind, SpecialLiteralKind,
 };
 ''',
     items=[
+        RawFile('../common/class_types.rs'),
+        RawFile('../common/ast_upper_types.rs'),
+        RawFile('../common/class_sem.rs'),
+        RawFile('../common/leaf_sem.rs'),
         RawFile('class_spec.rs'),
         literal, unicode, perl, union, bracketed, class_set, item, binop,
+        Struct(F_MF, 'MatchFunction', derive=[]),
+        mfun_new, mfun_call, mfun_try_from,
     ],
 )
